@@ -245,6 +245,8 @@ mod bwk;
 pub use bwk::*;
 
 mod time;
+#[cfg(all(biscuit_auth_biscuit_rust_verif, not(target_arch = "wasm32")))]
+pub use time::verif_clock;
 
 /// Procedural macros to construct Datalog policies
 #[cfg(feature = "datalog-macro")]
